@@ -31,7 +31,8 @@ def conds_streamHTTP_RecvMsg : List String := [
 def conds_streamHTTP_decodeRequestArgs : List String := [
    "defer func() { if cap(b) < s.opts.maxReceiveMessageSize { *bytes = b bytesPool.Put(bytes) } }()",
    "if cap(b) < s.opts.maxReceiveMessageSize",
-   "range s.method.body",
+   "if err != nil",
+   "return -1, err",
    "if err != nil",
    "return -1, err",
    "if err != nil && !(err == io.EOF && count == 0 && isHTTPBody)",
@@ -121,7 +122,8 @@ def conds_webWriter_flushWithTrailer : List String := [
 
 def conds_streamWS_RecvMsg : List String := [
    "if s.method.hasBody",
-   "range s.method.body",
+   "if err != nil",
+   "return err",
    "if err != nil",
    "return err",
    "if s.maxRecv > 0 && len(b) > s.maxRecv",
@@ -135,7 +137,8 @@ def conds_streamWS_RecvMsg : List String := [
   ]
 
 def conds_streamWS_SendMsg : List String := [
-   "range s.method.resp",
+   "if err != nil",
+   "return err",
    "if err != nil",
    "return err",
    "if err := wsutil.WriteServerMessage(s.conn, ws.OpText, b); err != nil",
